@@ -768,10 +768,14 @@ func c06Expected(t *c06Table, typ string, cfg *c06Cfg, sel []string, base map[st
 			// breaking: paths and the import exclusion apply to the against-location as well (bufcheck client, ignoreAnnotation)
 			if len(against) > 0 && against[0] != nil {
 				if ap := against[0].Path(a); ap != "" {
-					if underPath(ap, cfg.Ignore) || underPath(ap, ioRules[r]) {
-						continue
-					}
-					if excludeImports && against[0].ImportOnly[ap] {
+					if underPath(ap, cfg.Ignore) || underPath(ap, ioRules[r]) || (excludeImports && against[0].ImportOnly[ap]) {
+						// A few rules attach an against-location only sometimes (ENUM_VALUE_SAME_NAME: only when the
+						// new name existed before; MESSAGE_SAME_REQUIRED_FIELDS: never): for those, an annotation that
+						// only its against-location would suppress may legitimately be reported or not.
+						if c06OptionalAgainst[a.Rule] && a.Path != "" && against[0].Optional != nil {
+							against[0].Optional[a.key()] = true
+							out[a.key()] = a
+						}
 						continue
 					}
 				}
@@ -794,7 +798,14 @@ type c06Against struct {
 	Path func(lintAnn) string
 	// ImportOnly: files that are only imports in the against image.
 	ImportOnly map[string]bool
+	// Optional (output): annotations of rules in c06OptionalAgainst that only an against-location would suppress;
+	// they are in the expected set, and their absence is accepted as well.
+	Optional map[string]bool
 }
+
+// c06OptionalAgainst: breaking rules whose handler does not always pass a previous location
+// (bufcheckserverhandle/breaking.go: handleBreakingEnumValueSameName, handleBreakingMessageSameRequiredFields).
+var c06OptionalAgainst = map[string]bool{"ENUM_VALUE_SAME_NAME": true, "MESSAGE_SAME_REQUIRED_FIELDS": true}
 
 func diffAnnSets(want, got map[string]lintAnn) (missing, extra []string) {
 	for k, a := range want {
